@@ -54,7 +54,11 @@ class FuncInfo:
 
     @property
     def is_property(self) -> bool:
-        return "property" in self.decorators
+        return "property" in self.decorators or "cached_property" in self.decorators
+
+    @property
+    def is_cached_property(self) -> bool:
+        return "cached_property" in self.decorators
 
     @property
     def is_builder(self) -> bool:
